@@ -86,7 +86,8 @@ def worker(task):
                 return r, dict((v, m.eval(Int(v), model_completion=True).as_long()) for v in model_vars)
             return r, None
 
-        gran = 60 if scope == 'extended' else 900
+        gran = 60 if scope == 'extended' else 900   # STDOFF granularity (tzcompiler.py default per scope)
+        gran_at = 60   # AT/UNTIL granularity is 60 s in both scopes (tzcompiler.py)
         if kind == 'era':
             g = ag.ZoneInfosGenerator.__new__(ag.ZoneInfosGenerator)
             g.scope = scope
@@ -94,7 +95,7 @@ def worker(task):
             model_vars = ['off', 'delta', 'uy', 'um', 'ud', 'us']
             dom = [off % gran == 0, off >= -57600, off <= 57600, delta % 900 == 0, delta >= -3600, delta <= 9900,
                    z3.Or(z3.And(uy >= 1872, uy <= 2126), uy == ex.MAX_UNTIL_YEAR), um >= 0, um <= 12, ud >= 0, ud <= 31,
-                   us % gran == 0, us >= 0, us <= 90000]
+                   us % gran_at == 0, us >= 0, us <= 90000]
             fields, entry = ERA_FIELDS, 'c12_era_%s' % scope
 
             def f():
@@ -116,7 +117,7 @@ def worker(task):
             g.scope = scope
             at, delta, fy, ty, im, dow, dom_ = [Int(n) for n in ('at', 'delta', 'fy', 'ty', 'im', 'dow', 'dom')]
             model_vars = ['at', 'delta', 'fy', 'ty', 'im', 'dow', 'dom']
-            dom = [at % gran == 0, at >= 0, at <= 90000, delta % 900 == 0, delta >= -3600, delta <= 9900,
+            dom = [at % gran_at == 0, at >= 0, at <= 90000, delta % 900 == 0, delta >= -3600, delta <= 9900,
                    z3.Or(z3.And(fy >= 1873, fy <= 2126), fy == ex.MIN_YEAR, fy == ex.MAX_YEAR),
                    z3.Or(z3.And(ty >= 1873, ty <= 2126), ty == ex.MIN_YEAR, ty == ex.MAX_YEAR),
                    im >= 1, im <= 12, dow >= 0, dow <= 7, dom_ >= -31, dom_ <= 31]
@@ -285,7 +286,7 @@ def main():
                                                   '_to_extended_offset_and_delta', 'to_tiny_year', 'div_to_zero'],
                               'c++ (llsym)': sorted(f for f in funcs if not f.startswith('__verif'))},
         'bounds': {'STDOFF': '-16:00..+16:00 in whole minutes (extended) / multiples of 15 min (basic)',
-                   'SAVE': '-1:00..+2:45 in 15-minute steps', 'AT/UNTIL': '00:00..25:00 to the minute (extended) / 15 min (basic), suffix w/s/u',
+                   'SAVE': '-1:00..+2:45 in 15-minute steps', 'AT/UNTIL': '00:00..25:00 to the minute (both scopes), suffix w/s/u',
                    'years': '1872..2126, MIN_YEAR, MAX_YEAR, MAX_UNTIL_YEAR', 'letter': "single character and indexed letter numbers 0, 31, 32 "
                    '(32 must be rejected)', 'month/day fields': 'month 0..12, day 0..31, weekday 0..7, onDayOfMonth -31..31'},
         'outside_bounds': ['strings (names, formats, letter texts) are concrete', 'values outside the listed ranges'],
